@@ -26,7 +26,7 @@ ASSUMPTIONS = [
     "an exit error counts as surfaced when it is the caller's exception, a member of its exception "
     "group (recursively), or on its __context__/__cause__ chain",
     "disposables do not swallow cancellation",
-    "a cancellation delivered while the disposables are being exited leaves 'cleanup errors "
+    "a cancellation delivered while disposables are being exited (also during roll-back) leaves 'cleanup errors "
     "surface' unspecified (the statement quantifies over body outcomes); all other clauses apply",
 ]
 BOUNDS = {
@@ -184,7 +184,7 @@ def execute(program, ch: Chooser) -> Result:  # noqa: C901, PLR0912, PLR0915
                             viol("exit-details", want, want, [getattr(et, "__name__", None), repr(ev)[:60], tb is not None], disposable=d.name)
                         )
         # 5. cleanup errors surface
-        cancel_in_exit = cancelled and r.cancel_phases[0][0] == "exiting"
+        cancel_in_exit = cancelled and (r.cancel_phases[0][0] == "exiting" or r.cancel_in_cleanup[0])
         for exc in r.exit_errors.get(0, []):
             if cancel_in_exit:
                 break  # cancellation of the cleanup itself: outside the statement's quantifier
